@@ -59,6 +59,12 @@ Proof.
   destruct (tl - hd + 1 =? 0); intros X V; inversion X; subst; [now apply vers_meta_del | now apply vers_meta_put].
 Qed.
 
+Lemma vers_kv_reset (S : Z -> Prop) p s ts k v ttl s' : kv_reset p s ts k v ttl = Some s' -> vers_in S s -> vers_in S s'.
+Proof.
+  unfold kv_reset. destruct p; destruct (ttl <=? 0); try (intros X; inversion X; subst; auto; fail).
+  destruct (set_expire fresh_hdr (ttl + sec ts)); intros X; inversion X; subst; auto.
+Qed.
+
 Section Step.
   Variables (S : Z -> Prop) (ts : Z).
   Let S' := fun v => S v \/ v = ts.
@@ -202,6 +208,37 @@ Section Step.
       match goal with |- context [list_set_meta ?a ?b ?c ?d ?e] => destruct (list_set_meta a b c d e) as [s2|] eqn:LS end; cbn [fst]; auto.
       eapply vers_list_set_meta; eauto; [|now apply vers_el_del].
       destruct ud as [[a b]|]; [eapply hdr_ver; eauto | destruct ex; discriminate].
+    - (* set with options *) unfold do_setopt. destruct (kv_prepare Compact s ts k) as [[h ov] ex].
+      destruct (kv_cur ov ex); [destruct nx | destruct xx]; cbn [fst]; auto;
+        destruct (kv_reset Compact s ts k v ttl) eqn:R; cbn [fst]; auto; eapply vers_kv_reset; eauto.
+    - (* setifeq *) unfold do_setifeq. destruct (kv_prepare Compact s ts k) as [[h ov] ex].
+      destruct (eq_cur (kv_cur ov ex) old); cbn [fst]; auto.
+      destruct (kv_reset Compact s ts k v ttl) eqn:R; cbn [fst]; auto. eapply vers_kv_reset; eauto.
+    - (* delifeq *) unfold do_delifeq. destruct (kv_raw Compact s ts k) as [[h ov] ex].
+      destruct (negb (eq_cur ov old) && negb ex); cbn [fst]; auto.
+    - (* ltrim *) unfold do_ltrim. destruct (coll_header Compact s ts TL k) as [[h ud] ex] eqn:E.
+      destruct (not_exist_or_expired ud ex) eqn:N; cbn [fst]; auto. destruct (list_meta_of ud) as [[hd tl] llen]. cbv zeta.
+      match goal with |- context [if ?c then _ else _] => destruct c end.
+      + cbn [fst]. destruct (llen =? 0); auto. now apply vers_meta_del.
+      + match goal with |- context [list_set_meta ?x ?y ?z ?u ?w] => destruct (list_set_meta x y z u w) as [s2|] eqn:LS end; cbn [fst]; auto.
+        eapply vers_list_set_meta; eauto.
+        * destruct ud as [[a0 b0]|]; [eapply hdr_ver; eauto | destruct ex; discriminate].
+        * apply (vers_fold_del S' TL k (h_ver h) (fun i : Z => SI i)). now apply (vers_fold_del S' TL k (h_ver h) (fun i : Z => SI i)).
+    - (* lset *) unfold do_lset. destruct (coll_header Compact s ts TL k) as [[h ud] ex] eqn:E.
+      destruct (not_exist_or_expired ud ex) eqn:N; cbn [fst]; auto. destruct (list_meta_of ud) as [[hd tl] size]. cbv zeta.
+      destruct (size =? 0); cbn [fst]; auto.
+      match goal with |- context [if ?c then _ else _] => destruct c end; cbn [fst]; auto.
+      destruct (list_set_meta s k h hd tl) as [s1|] eqn:LS; cbn [fst]; auto.
+      assert (Hh : S' (h_ver h)) by (destruct ud as [[a0 b0]|]; [eapply hdr_ver; eauto | destruct ex; discriminate]).
+      apply vers_el_put; auto. eapply vers_list_set_meta; eauto.
+    - (* zremrangebyrank *) unfold do_zremrangebyrank. destruct (coll_header Compact s ts TZ k) as [[h ud] ex] eqn:E.
+      destruct ex; cbn [fst]; auto. cbv zeta. destruct (size_of ud =? 0) eqn:Z0; cbn [fst]; auto.
+      assert (Hh : S' (h_ver h)) by (destruct ud as [[a0 b0]|]; [eapply hdr_ver; eauto | simpl in Z0; discriminate]).
+      match goal with |- context [if ?c then _ else _] => destruct c end.
+      { destruct (not_exist_or_expired ud false); cbn [fst]; auto. now apply vers_meta_del. }
+      match goal with |- context [if ?c then _ else _] => destruct c end; cbn [fst]; auto.
+      match goal with |- context [if ?c then _ else _] => destruct c end; cbn [fst]; apply vers_incr_size; auto.
+      now apply (vers_fold_del S' TZ k (h_ver h) (fun m0 : bytes => SB m0)).
   Qed.
 End Step.
 
